@@ -115,12 +115,21 @@ func VerifC17BatchLogs() {
 		}
 		ld, items := vc04BuildLogs(string(rune('a'+i)), &id, vParam("maxL"), false, 0)
 		in = append(in, items...)
+		pendingBefore := sh.batch.itemCount()
+		batchesBefore := len(sink.batches)
+		resetsBefore := vTimerResets()
 		sh.processItem(ld)
 		pending := len(in)
 		for _, b := range sink.batches {
 			pending -= len(b)
 		}
 		vAssert(sh.batch.itemCount() == pending, "batch-logs/item-count-matches-pending-payload")
+		if sh.hasTimer() && pendingBefore > 0 && len(sink.batches) == batchesBefore {
+			// structural form of "pending items are emitted no later than the timeout after the FIRST of
+			// them arrived": a later arrival that triggers no send must not restart the flush timer
+			vAssert(vTimerResets() == resetsBefore, "batch-logs/later-arrival-does-not-postpone-the-flush-deadline")
+			vReach("arrival-without-send")
+		}
 		if sh.hasTimer() {
 			vAssert(pending < size, "batch-logs/emits-as-soon-as-send-batch-size-pending")
 		} else {
@@ -313,5 +322,51 @@ func VerifC17Metadata() {
 	if !same {
 		vReach("two-groups")
 	}
+	vReach("end")
+}
+
+
+// VerifC17MetadataConcurrent: producers with distinct metadata values arrive concurrently while the
+// cardinality limit admits only one group: at most `limit` groups are ever accepted.
+func VerifC17MetadataConcurrent() {
+	sink := &vc17MetaSink{}
+	bp := &batchProcessor[plog.Logs]{logger: zap.NewNop(), sendBatchSize: 8, sendBatchMaxSize: 0, timeout: time.Second, telemetry: vc17Telemetry(),
+		shutdownC: make(chan struct{}, 1)}
+	bp.batchFunc = func() batch[plog.Logs] { return newBatchLogs(sink) }
+	mb := &multiShardBatcher[plog.Logs]{metadataKeys: []string{"tenant"}, metadataLimit: 1, processor: bp}
+	bp.batcher = mb
+	var id uint64
+	P := vParam("producers")
+	errs := make([]error, P)
+	var wg sync.WaitGroup
+	wg.Add(P)
+	vc04MaxR, vc04MaxS = 1, 1
+	for p := 0; p < P; p++ {
+		p := p
+		ld, _ := vc04BuildLogs(string(rune('a'+p)), &id, 1, false, 0)
+		ctx := client.NewContext(context.Background(), client.Info{Metadata: client.NewMetadata(map[string][]string{"tenant": {string(rune('A' + p))}})})
+		go func() {
+			defer wg.Done()
+			errs[p] = bp.batcher.consume(ctx, ld)
+		}()
+	}
+	wg.Wait()
+	accepted := 0
+	for _, e := range errs {
+		if e == nil {
+			accepted++
+		}
+	}
+	vAssert(accepted <= 1, "metadata-concurrent/cardinality-limit-holds-under-concurrent-arrivals")
+	vAssert(accepted >= 1, "metadata-concurrent/first-group-is-accepted")
+	vAssert(mb.currentMetadataCardinality() <= 1, "metadata-concurrent/reported-cardinality-within-limit")
+	vAssert(bp.Shutdown(context.Background()) == nil, "metadata-concurrent/shutdown-ok")
+	groups := map[string]bool{}
+	for _, b := range sink.batches {
+		if len(b.tenant) == 1 {
+			groups[b.tenant[0]] = true
+		}
+	}
+	vAssert(len(groups) <= 1, "metadata-concurrent/at-most-limit-groups-emitted-downstream")
 	vReach("end")
 }
